@@ -98,6 +98,67 @@ Definition m_fire_state (s : ostate) (id : N) : option ostate :=
       else None
   end.
 
+(* UpdateAllocation for a key the application already has (no in-flight swap, not a placeholder):
+   resource change first (UpdateAllocationResources + Node.UpdateAllocatedResource), then the transition
+   from requested to allocated when the shim reports a node *)
+Definition m_update_existing (s : ostate) (a : oapp) (x : oalloc) (r : oreq) : option ostate :=
+  if oa_ph x || negb (oa_release x =? 0) || negb (no_res a) then None else
+  let newres := oget (rq_res r) in
+  let delta := Prune (Sub (Some newres) (Some (oa_res x))) in
+  (* existing allocated on a node that is gone: rejected before anything changes *)
+  if oa_allocated x && match find_node s (oa_node x) with None => true | _ => false end then Some s else
+  let changed := negb (IsZero (Some delta)) && negb (IsZero (Some newres)) in
+  let s1 :=
+    if negb changed then s else
+    if oa_allocated x then
+      let a1 := ap_with a (ap_state a) (ap_pending a) (Prune (Add (Some (ap_allocated a)) (Some delta))) (ap_phalloc a)
+                        (map (fun y => if oa_key y =? oa_key x then oa_with_res y newres else y) (ap_requests a))
+                        (map (fun y => if oa_key y =? oa_key x then oa_with_res y newres else y) (ap_allocs a)) (ap_statelog a) in
+      let s0 := q_inc (upd_app s (ap_id a) (fun _ => a1)) (ap_queue a) delta in
+      match find_node s0 (oa_node x) with
+      | Some n => upd_node s0 (on_id n) (fun _ => n_update_alloc n (oa_key x) newres delta)
+      | None => s0 end
+    else
+      let a1 := ap_with a (ap_state a) (Prune (Add (Some (ap_pending a)) (Some delta))) (ap_allocated a) (ap_phalloc a)
+                        (map (fun y => if oa_key y =? oa_key x then oa_with_res y newres else y) (ap_requests a))
+                        (ap_allocs a) (ap_statelog a) in
+      q_inc_pending (upd_app s (ap_id a) (fun _ => a1)) (ap_queue a) delta in
+  if oa_allocated x || (rq_node r =? 0) then Some s1 else
+  (* transitioning from requested to allocated: allocateAsk, IncAllocatedResource, Node.AddAllocation(force), AddAllocation *)
+  match find_app s1 (ap_id a), find_node s1 (rq_node r) with
+  | Some a1, Some n =>
+      match find_alloc (ap_requests a1) (oa_key x) with
+      | None => None
+      | Some ask =>
+          let bound := oa_bound ask (rq_node r) in
+          match n_add n bound true with
+          | None => None
+          | Some n' =>
+              let a2 := ap_event a1 (fsm_run (ap_state a1)) in
+              let a3 := ap_with a2 (ap_state a2) (Prune (Sub (Some (ap_pending a2)) (Some (oa_res ask))))
+                                (Add (Some (ap_allocated a2)) (Some (oa_res ask))) (ap_phalloc a2)
+                                (put_alloc bound (ap_requests a2)) (put_alloc bound (ap_allocs a2)) (ap_statelog a2) in
+              let s2 := q_dec_pending (upd_app s1 (ap_id a) (fun _ => a3)) (ap_queue a) (oa_res ask) in
+              let s3 := q_inc s2 (ap_queue a) (oa_res ask) in
+              Some (add_counts (upd_node s3 (on_id n) (fun _ => n')) 1 0)
+          end
+      end
+  | _, _ => None
+  end.
+
+Definition m_alloc2 (s : ostate) (r : oreq) : option ostate :=
+  if negb (rq_partition_ok r) || rq_foreign r then None else
+  match find_app s (rq_app r) with
+  | None => None
+  | Some a =>
+      if negb (rq_node r =? 0) && match find_node s (rq_node r) with None => true | _ => false end then None else
+      if IsZero (rq_res r) || negb (StrictlyGreaterThanZero (rq_res r)) then None else
+      match find_alloc (ap_requests a) (rq_key r) with
+      | Some x => m_update_existing s a x r
+      | None => None
+      end
+  end.
+
 Definition m_step2 (deny : list (N * N)) (s : ostate) (st : ostep) : option ostate :=
   match m_step deny s st with
   | Some r => Some r
@@ -109,6 +170,7 @@ Definition m_step2 (deny : list (N * N)) (s : ostate) (st : ostep) : option osta
       | OpNodeRemove id => m_node_remove s id
       | OpFireState id => m_fire_state s id
       | OpFirePh id => match find_app s id with Some a => if ap_phtimer a then None else Some s | None => None end
+      | OpAlloc r => m_alloc2 s r
       | _ => None
       end
   end.
